@@ -92,6 +92,10 @@ class Missing(Exception):
     pass
 
 
+class MustRaise(Missing):
+    """The documented meaning is an error (e.g. remap_columns, ignore_missing false, a source value that is not in the map)."""
+
+
 def num(v):
     try:
         f = float(v)
@@ -180,7 +184,7 @@ def ref_apply(op, cols, rows):
             for j, d in enumerate(dst):
                 r[d] = str(hit[len(src) + j]) if hit is not None else "n/a"
         if unmatched and not p["ignore_missing"]:
-            raise Missing()
+            raise MustRaise()
         return cols, rows
     if name == "merge_consecutive":
         c = p["column_name"]
@@ -397,9 +401,14 @@ def run_list(env, rec, ops, cols, rows, label):
             rcols, rrows = ref_apply(o, rcols, rrows)
         expected = table_norm(rcols, rrows)
         may_raise = False
+        must_raise = False
+    except MustRaise:
+        expected, may_raise = None, True
+        must_raise = len(ops) == 1
     except Missing:
         expected = None
         may_raise = True
+        must_raise = False
     if any(o["operation"] == "remap_columns" and (o["parameters"].get("integer_sources") or
                                                   "code" in o["parameters"]["source_columns"]) for o in ops[:-1]):
         # remap_columns with integer_sources hands its source columns on as text; what later operations that address
@@ -430,6 +439,10 @@ def run_list(env, rec, ops, cols, rows, label):
         rec.violation(f"C17:valid-list-raises:{type(e).__name__}:{where}:{sig}",
                       ops=ops_before, table=to_tsv(cols, rows), error=repr(e)[:300])
         rec.outcome("raises")
+        return None
+    if must_raise:
+        rec.violation(f"C17:documented-error-not-raised:{ops[0]['operation']}", ops=ops_before, table=to_tsv(cols, rows),
+                      returned=frame_to_table(res))
         return None
     if not snapshot.equals(df_in) or list(snapshot.dtypes) != list(df_in.dtypes):
         rec.violation(f"C17:input-frame-changed:{ops[0]['operation']}", ops=ops_before, table=to_tsv(cols, rows))
